@@ -184,6 +184,23 @@ def run(ctx):
     ctx.check('C08.V4.weights', '_get_rfield multiplies by the same weights',
               ok, 'the division by the weights in jtvec is not undone by a '
               'multiplication with the same weights', ctx.where(sm, rf))
+    # the stored residual is saved as a COPY before it is overwritten and
+    # written back afterwards (a view would be overwritten with the vector)
+    sv_ = find('_b_ = self.data.residual.data.copy()', jtv) + \
+        find("_b_ = self.data['residual'].data.copy()", jtv) + \
+        find('_b_ = self.data.residual.copy()', jtv)
+    ok = len(sv_) == 1
+    if ok:
+        b_ = sv_[0][1]['_b_']
+        over = find('self.data.residual[...] = _v_ / __', jtv)
+        back = find(f'self.data.residual[...] = {b_}', jtv)
+        ok = len(over) == 1 and len(back) == 1 and \
+            sv_[0][0].lineno < over[0][0].lineno < back[0][0].lineno
+    ctx.check('C08.V4.weights', 'jtvec saves a copy of the residual and '
+              'restores it', ok, 'the residual of the misfit is not saved as '
+              'a copy before jtvec overwrites it in place / not written back: '
+              'a later gradient is J^T of the last vector, not of the '
+              'residual', ctx.where(sm, jtv))
     ctx.check('C08.V4.weights', 'jtvec uses the gradient machinery',
               has('self.gradient', jtv), 'jtvec does not go through the '
               'gradient', ctx.where(sm, jtv))
